@@ -117,4 +117,71 @@ Section Cert.
       apply select_perm; [exact H|exact Hlen|].
       intros i Hi. rewrite forallb_forall in Hb. specialize (Hb i Hi). apply Nat.ltb_lt in Hb. exact Hb.
   Qed.
+
+  (* ---------------------------------------------------------------------------------- *)
+  (* histories with pending calls.  [h] holds the completed calls, [pend] the calls that have
+     been invoked but have not returned.  The history is linearizable when SOME of the pending
+     calls can be completed (given a result, returning at a time [inf] later than every stamp)
+     and the others dropped such that the complete history is linearizable. *)
+  Record pcall := mkpc { pc_call : N; pc_op : Op }.
+
+  Definition completes (inf : N) (pend : list pcall) (compl : list orec) : Prop :=
+    exists idx : list nat, NoDup idx /\
+      Forall2 (fun i e => exists p, nth_error pend i = Some p /\
+                           o_call e = pc_call p /\ o_op e = pc_op p /\ o_ret e = inf) idx compl.
+
+  Definition later (inf : N) (h : list orec) (pend : list pcall) : Prop :=
+    (forall e, In e h -> o_call e < inf /\ o_ret e < inf) /\ (forall p, In p pend -> pc_call p < inf).
+
+  Definition linearizable_pending (s0 : St) (h : list orec) (pend : list pcall) : Prop :=
+    exists inf compl, later inf h pend /\ completes inf pend compl /\ linearizable fspec s0 (h ++ compl).
+
+  (* certificate: which pending calls are completed and with which result ([chosen]: position in
+     [pend], result), the time [inf], and the positions of the records of [h ++ completions] in
+     linearization order *)
+  Definition completion_of (inf : N) (pend : list pcall) (chosen : list (nat * Res)) : option (list orec) :=
+    fold_right (fun (c : nat * Res) acc =>
+                  match nth_error pend (fst c), acc with
+                  | Some p, Some l => Some (mkrec (pc_call p) inf (pc_op p) (snd c) :: l)
+                  | _, _ => None
+                  end) (Some []) chosen.
+
+  Definition later_b (inf : N) (h : list orec) (pend : list pcall) : bool :=
+    forallb (fun e => (o_call e <? inf) && (o_ret e <? inf)) h && forallb (fun p => pc_call p <? inf) pend.
+
+  Definition pcert_ok (s0 : St) (h : list orec) (pend : list pcall) (inf : N)
+             (chosen : list (nat * Res)) (p : list nat) : bool :=
+    match completion_of inf pend chosen with
+    | Some compl => later_b inf h pend && nodup_b (map fst chosen) && cert_ok s0 (h ++ compl) p
+    | None => false
+    end.
+
+  Lemma completion_of_sound inf pend : forall chosen compl,
+    completion_of inf pend chosen = Some compl ->
+    Forall2 (fun i e => exists p, nth_error pend i = Some p /\
+                         o_call e = pc_call p /\ o_op e = pc_op p /\ o_ret e = inf) (map fst chosen) compl.
+  Proof.
+    induction chosen as [|[i r] chosen IH]; intros compl H; simpl in H.
+    - inversion H. constructor.
+    - destruct (nth_error pend i) as [p|] eqn:Ep; [|discriminate].
+      destruct (completion_of inf pend chosen) as [l|] eqn:El; [|discriminate].
+      inversion H; subst. simpl. constructor; [|apply IH; reflexivity].
+      exists p. repeat split; auto.
+  Qed.
+
+  Theorem pcert_ok_sound s0 h pend inf chosen p :
+    pcert_ok s0 h pend inf chosen p = true -> linearizable_pending s0 h pend.
+  Proof.
+    unfold pcert_ok. destruct (completion_of inf pend chosen) as [compl|] eqn:Ec; [|discriminate].
+    intros H. apply andb_true_iff in H. destruct H as [H Hc]. apply andb_true_iff in H. destruct H as [Hl Hn].
+    exists inf, compl. split; [|split].
+    - unfold later_b in Hl. apply andb_true_iff in Hl. destruct Hl as [H1 H2].
+      rewrite forallb_forall in H1, H2. split.
+      + intros e He. specialize (H1 e He). apply andb_true_iff in H1. destruct H1 as [A B].
+        apply N.ltb_lt in A, B. split; assumption.
+      + intros q Hq. specialize (H2 q Hq). apply N.ltb_lt in H2. exact H2.
+    - exists (map fst chosen). split; [apply nodup_b_sound; exact Hn|].
+      apply completion_of_sound. exact Ec.
+    - eapply cert_ok_sound. exact Hc.
+  Qed.
 End Cert.
